@@ -1783,8 +1783,11 @@ impl FunctionDef {
                 // Build local bindings for this call (O(1) - no clone of parent environment!)
                 let mut local_bindings = HashMap::new();
 
-                // Add self-reference if named
-                if let Some(fn_name) = name {
+                // Add self-reference if named, unless the body captured a different value
+                // under that name when the function was created
+                if let Some(fn_name) = name
+                    && !scope.contains_key(fn_name)
+                {
                     local_bindings.insert(fn_name.clone(), this_value);
                 }
 
